@@ -1,6 +1,8 @@
 #!/bin/bash
 # usage: tools/seed_both.sh <name e.g. c04-b> <PROPERTY> <pkgdir> <RunRegex>
 n=$1; pid=$2; pkg=$3; re=$4
-up=$(echo $n | tr a-z A-Z)
+up=$(echo $n | sed "s/^c/C/")
+# bring the scratch worktree to /repo's current HEAD (fix / hook commits may have landed since it was created), keeping the patch
+( cd /tmp/seed-$n && git diff -- . ':!SEED' > /tmp/seedrb.$$.diff && git checkout -q -f --detach $(git -C /repo rev-parse HEAD) && git apply /tmp/seedrb.$$.diff && rm -f /tmp/seedrb.$$.diff ) || { echo "rebase of the seed onto HEAD failed"; exit 2; }
 echo "=== $up demo"; /verif/tools/seed_demo.sh /tmp/seed-$n $pkg demo_test.go "$re" 2>&1 | grep -E '^(---|ok|FAIL|\s+[a-z_]+_test.go)' | head -8
 echo "=== $up check"; /verif/tools/seed_eval.sh /tmp/seed-$n $pid $up 2>&1 | tail -5
